@@ -9,6 +9,7 @@ import (
 	"errors"
 	"fmt"
 	"strings"
+	"time"
 
 	"filippo.io/age"
 	"filippo.io/age/agessh"
@@ -49,7 +50,33 @@ func call(id *agessh.EncryptedSSHIdentity, st []*age.Stanza, prompts *int) (o ou
 		}
 		o.prompts = *prompts - before
 	}()
-	k, err := id.Unwrap(st)
+	// a call that does not return within two minutes (each costs milliseconds) is reported as a hang
+	type ret struct {
+		k   []byte
+		err error
+		pan interface{}
+	}
+	done := make(chan ret, 1)
+	go func() {
+		defer func() {
+			if r := recover(); r != nil {
+				done <- ret{pan: r}
+			}
+		}()
+		k, err := id.Unwrap(st)
+		done <- ret{k: k, err: err}
+	}()
+	var k []byte
+	var err error
+	select {
+	case r := <-done:
+		if r.pan != nil {
+			panic(r.pan)
+		}
+		k, err = r.k, r.err
+	case <-time.After(2 * time.Minute):
+		return outcome{class: "hang", text: "Unwrap did not return within two minutes"}
+	}
 	switch {
 	case err == nil:
 		return outcome{class: "key", text: fmt.Sprintf("%x", k)}
@@ -67,6 +94,8 @@ func main() {
 			{"ed25519-mismatched-same-tag", keys.EdTag(0), keys.EdTag(1), keys.EdTagEncPEMB(), false},
 			{"rsa-consistent", keys.RSA(0), keys.RSA(0), keys.RSAEncPEM(0), true},
 			{"rsa-mismatched", keys.RSA(0), keys.RSA(1), keys.RSAEncPEM(1), false},
+			// the private-key file holds a key of a type age does not support at all (ECDSA); "stored" is a stand-in
+			{"ed25519-declared-ecdsa-stored", keys.Ed(0), keys.Ed(1), keys.ECDSAEncPEM(), false},
 		}
 		wrap := func(k *keys.Key, fk []byte) *age.Stanza {
 			s, err := k.Rcpt.Wrap(fk)
@@ -167,6 +196,7 @@ func main() {
 					fresh[[2]int{fi, ai}] = call(newID(k, &ans, &p), files[fi].stanzas, &p)
 				}
 			}
+			hung := false
 			var rec func(hist []int)
 			rec = func(hist []int) {
 				if len(hist) > 0 {
@@ -203,6 +233,8 @@ func main() {
 							switch {
 							case o.class == "panic":
 								c.Fail("panic", id, o.text, det())
+							case o.class == "hang":
+								c.Fail("outcome-depends-on-history/hang", id, "the call never returns; on a fresh identity it returns "+want.class+" "+ev.Clip(want.text, 80), det())
 							case o.prompts != wantPrompts && o.prompts > 0 && !match(f):
 								c.Fail("prompt-without-match", id, "passphrase requested although no stanza carries the identity's type and tag", det())
 							case o.prompts != wantPrompts && wantPrompts == 1:
@@ -226,6 +258,11 @@ func main() {
 							if !remembered && wantPrompts == 1 && ans == "right" && k.consistent {
 								remembered = true
 							}
+							if o.class == "hang" {
+								c.NotExhaustive("histories of " + k.name + " abandoned after a call that never returned")
+								hung = true // the identity value is stuck; later calls (and histories) would only wait again
+								break
+							}
 						}
 						if c.WantSample() && len(hist) == 3 {
 							c.Sample(map[string]interface{}{"identity": k.name, "history": trace})
@@ -239,7 +276,7 @@ func main() {
 					if len(hist) == 0 && !c.MineKey(i+ki) {
 						continue
 					}
-					if c.Expired() {
+					if c.Expired() || hung {
 						return
 					}
 					rec(append(append([]int{}, hist...), i))
